@@ -436,12 +436,12 @@ Example c12_ex_n18_precondition :
   rq_wf q = true /\ rq_agg_ok q = false /\ staged_rq_ok q = false.
 Proof. repeat split; vm_compute; reflexivity. Qed.
 (* the model formats: `let v = a + (a + a)` on one line with 5 invocations; a right-nested chain of 12 wide operands needs
-   line breaks and 173 invocations for 25 nodes (more than linear, far below 25^3) *)
+   line breaks and 70 invocations for 25 nodes, 292 for 49, 811 for 97 (more than linear, far below size^3) *)
 Example c12_ex_fmt_layout :
   format_let (Bin (Id 1) (Bin (Id 1) (Id 1))) =
     (Some [108; 101; 116; 32; 118; 32; 61; 32; 97; 32; 43; 32; 40; 97; 32; 43; 32; 97; 41; 10]%N, 5).
 Proof. vm_compute. reflexivity. Qed.
 Example c12_ex_fmt_layout_deep :
   let e := Nat.iter 12 (fun t => Bin (Id 9) t) (Id 9) in
-  size e = 25 /\ snd (format_let e) = 173 /\ existsb (N.eqb 10%N) (removelast (match fst (format_let e) with Some t => t | None => [] end)) = true.
+  size e = 25 /\ snd (format_let e) = 70 /\ snd (format_let (Nat.iter 24 (fun t => Bin (Id 9) t) (Id 9))) = 292 /\ existsb (N.eqb 10%N) (removelast (match fst (format_let e) with Some t => t | None => [] end)) = true.
 Proof. vm_compute. auto. Qed.
